@@ -150,9 +150,10 @@ specs["C08"] = {"runs": c08 + [
     run("parser:Harness_parse_flaky", QT, {"R": 2}, owned=["no-panic"]),
     run("cmd/hranoprovod-cli:Harness_app_bad_input", QT, {}, owned=["no-panic"], note="whole application on malformed and unreadable files"),
     run("cmd/hranoprovod-cli:Harness_main_exit_status", QT, {}, owned=["no-panic"], note="main() under every scenario"),
+    run("cmd/hranoprovod-cli:Harness_app_single_food_patterns", QT, {}, owned=["no-panic", "malformed-pattern-is-error", "valid-pattern-runs"], cover=["ran"], note="`register -f PATTERN` with 4 well-formed and 8 malformed regular expressions (regexp.Compile executed from its real SSA)"),
     run("cmd/hranoprovod-cli:Harness_app_settings", Q, {"full": 0}, owned=["no-panic"], note="whole application under every source combination of the settings"),
  ], "assumptions": ["implicit assertions on every explored path: nil dereference, index and slice bounds, failed type assertion, integer division by zero, explicit panic; termination = every path ends within the step and call-depth budgets"],
- "outside_claim": ["arbitrary flag shapes (urfave/cli)", "lines longer than the bound", "stack exhaustion as such for the default limit 10 (recursion depth is bounded by construction, shown for N<=4)", "regexp compilation of --single-food"],
+ "outside_claim": ["arbitrary flag shapes (urfave/cli)", "lines longer than the bound", "stack exhaustion as such for the default limit 10 (recursion depth is bounded by construction, shown for N<=4)", "--single-food patterns beyond the listed corpus"],
  "stubs": [REALSTD, PF, TIME, FMT]}
 
 specs["C09"] = {"runs": [ls(c, Q, q, ["malformed-"]) for c in (5, 6)] + [ls(c, T, t, ["malformed-"]) for c in (5, 6)] + [
